@@ -125,6 +125,23 @@ fn builder_case(inp: &[u64]) -> Result<(), String> {
         let ef = b.build_with_seq();
         for i in 0..n { if ef.get(i) != acc[i] { return Err(format!("get({}) = {} expected {}", i, ef.get(i), acc[i])); } }
     }
+    // From<slice>: monotone input gives the sequence, a descent anywhere is rejected by a panic
+    { let ef: EliasFano = EliasFano::from(&acc[..]);
+      if ef.len() != acc.len() { return Err("From<slice>: len".into()); }
+      let sel = unsafe { ef.map_high_bits(SelectAdaptConst::<_, _, 12, 3>::new) };
+      for i in 0..acc.len() { if sel.get(i) != acc[i] { return Err(format!("From<slice>: get({})", i)); } } }
+    if acc.len() >= 2 {
+        let k = 1 + (rng.below((acc.len() - 1) as u64) as usize);
+        let mut bad = acc.clone();
+        if bad[k - 1] > 0 { bad[k] = bad[k - 1] - 1;
+            let r = std::panic::catch_unwind(|| { let _e: EliasFano = EliasFano::from(&bad[..]); });
+            if r.is_ok() { return Err(format!("From<slice> accepted a descent at index {}", k)); } }
+        // extend after push: the order check must remember the values already pushed
+        let mut b2 = EliasFanoBuilder::new(acc.len(), u);
+        b2.push(acc[k]);
+        let r = std::panic::catch_unwind(std::panic::AssertUnwindSafe(|| b2.extend([acc[k].saturating_sub(1)])));
+        if r.is_ok() && acc[k] > 0 { return Err("extend accepted a value below the last pushed one".into()); }
+    }
     Ok(())
 }
 
